@@ -533,3 +533,51 @@ Proof.
   unfold handler_conv in E2. rewrite Hc in E2. cbn in E2. injection E2 as <-.
   rewrite Hu in E3. exact E3.
 Qed.
+
+(* ---------- histories: the servers are stateless ---------- *)
+
+(* on a read-only server every request of a history is answered exactly as if it were the only
+   one ever sent, and the store is never touched: nothing an earlier request did -- an authorized
+   GET of the same object, say -- can change the answer to a later one *)
+Lemma chunk_history_readonly H zcomp zdecomp c s rs :
+  c_writable c = false ->
+  chunk_history H zcomp zdecomp c s rs = (map (fun r => fst (chunk_handle H zcomp zdecomp c s r)) rs, s).
+Proof.
+  intros Hw. induction rs as [|r rest IH]; [reflexivity|]. cbn [chunk_history map].
+  pose proof (chunk_readonly H zcomp zdecomp c s r Hw) as Hs.
+  destruct (chunk_handle H zcomp zdecomp c s r) as [a s1]. cbn [snd fst] in *. subst s1. now rewrite IH.
+Qed.
+
+Lemma index_history_readonly index_t idx_decode idx_encode c d rs :
+  c_writable c = false ->
+  index_history index_t idx_decode idx_encode c d rs =
+  (map (fun r => fst (index_handle index_t idx_decode idx_encode c d r)) rs, d).
+Proof.
+  intros Hw. induction rs as [|r rest IH]; [reflexivity|]. cbn [index_history map].
+  pose proof (index_readonly index_t idx_decode idx_encode c d r Hw) as Hs.
+  destruct (index_handle index_t idx_decode idx_encode c d r) as [a d1]. cbn [snd fst] in *. subst d1. now rewrite IH.
+Qed.
+
+(* in ANY history (writable or not), every request that does not carry the configured value is
+   answered 401, whatever was requested before it, and by whom *)
+Lemma chunk_history_auth H zcomp zdecomp c : forall rs s,
+  c_auth c <> [] ->
+  Forall2 (fun r a => r_auth r <> c_auth c -> a = resp 401 [])
+          rs (fst (chunk_history H zcomp zdecomp c s rs)).
+Proof.
+  induction rs as [|r rest IH]; intros s Hc; [constructor|]. cbn [chunk_history].
+  destruct (chunk_handle H zcomp zdecomp c s r) as [a s1] eqn:E.
+  specialize (IH s1 Hc). destruct (chunk_history H zcomp zdecomp c s1 rest) as [l s2]. cbn [fst] in *.
+  constructor; [|exact IH]. intros Hr. rewrite (chunk_auth_gate H zcomp zdecomp c s r Hc Hr) in E. congruence.
+Qed.
+
+Lemma index_history_auth index_t idx_decode idx_encode c : forall rs d,
+  c_auth c <> [] ->
+  Forall2 (fun r a => r_auth r <> c_auth c -> a = resp 401 [])
+          rs (fst (index_history index_t idx_decode idx_encode c d rs)).
+Proof.
+  induction rs as [|r rest IH]; intros d Hc; [constructor|]. cbn [index_history].
+  destruct (index_handle index_t idx_decode idx_encode c d r) as [a d1] eqn:E.
+  specialize (IH d1 Hc). destruct (index_history index_t idx_decode idx_encode c d1 rest) as [l d2]. cbn [fst] in *.
+  constructor; [|exact IH]. intros Hr. rewrite (index_auth_gate index_t idx_decode idx_encode c d r Hc Hr) in E. congruence.
+Qed.
